@@ -125,6 +125,9 @@ func Prop(c Case, x *h.Ctx) *h.Violation {
 	type stored struct {
 		nilFlag bool
 		payload []byte
+		usize   uint64
+		csize   uint64
+		crc     uint64
 	}
 	var st []stored
 	for i, off := range offs {
@@ -136,7 +139,7 @@ func Prop(c Case, x *h.Ctx) *h.Violation {
 		if !ok {
 			return h.V("kaitai/harness", "independent decoder cannot parse record %d", i)
 		}
-		st = append(st, stored{hd.Nil, data[int(off)+hd.Len : end]})
+		st = append(st, stored{hd.Nil, data[int(off)+hd.Len : end], hd.USize, hd.CSize, hd.CRC})
 		if hd.Nil != (native[i] == nil) {
 			return h.V("kaitai/harness", "record %d: on-disk nil flag %v, native reader nil=%v", i, hd.Nil, native[i] == nil)
 		}
@@ -173,8 +176,20 @@ func Prop(c Case, x *h.Ctx) *h.Violation {
 			return h.V(fpc+"/payload", "record %d: kaitai payload %d bytes, stored payload %d bytes (or different content)", i, len(r.Payload), len(st[i].payload))
 		}
 		u, err := r.UncompressedPayloadLen.Value()
-		if err != nil || (!st[i].nilFlag && u != len(recs[i])) {
-			return h.V(fpc+"/ulen", "record %d: kaitai uncompressed length %d (err %v), record has %d bytes", i, u, err, len(recs[i]))
+		if err != nil || (!st[i].nilFlag && u != len(recs[i])) || uint64(u) != st[i].usize {
+			return h.V(fpc+"/ulen", "record %d: kaitai uncompressed length %d (err %v), record has %d bytes, header says %d", i, u, err, len(recs[i]), st[i].usize)
+		}
+		// the remaining header fields must decode to what is on disk, too (multi-group variable-length integers)
+		cl, err := r.CompressedPayloadLen.Value()
+		if err != nil || uint64(cl) != st[i].csize {
+			return h.V(fpc+"/clen", "record %d: kaitai compressed length %d (err %v), header says %d", i, cl, err, st[i].csize)
+		}
+		crc, err := r.Crc32Checksum.Value()
+		if err != nil || uint64(crc) != st[i].crc {
+			return h.V(fpc+"/crc", "record %d: kaitai header checksum %d (err %v), header says %d", i, crc, err, st[i].crc)
+		}
+		if !bytes.Equal(r.Magic, gen.Marker) {
+			return h.V(fpc+"/magic", "record %d: kaitai magic %x", i, r.Magic)
 		}
 	}
 	x.Labelf("comp=%d", c.Comp)
